@@ -118,6 +118,7 @@ TLC_SUMMARY = re.compile(r"(\d+) states generated, (\d+) distinct states found, 
 
 def tlc(d, module, cfg, workers=16, timeout=1800, extra=(), heap=None):
     """run TLC in directory d; returns (stdout, rc)"""
+    workers = min(int(workers), int(os.environ.get("VERIF_TLC_WORKERS", "16")))
     cmd = ["tlc", "-workers", str(workers), "-metadir", os.path.join(d, "md-" + cfg.replace(".cfg", "") + f"-{time.time_ns()}"),
            "-config", cfg] + list(extra) + [module]
     env = {}
